@@ -206,6 +206,8 @@ fn create_buffer(size: usize) -> Box<[u8]> {
 
 #[inline(never)]
 pub extern "sysv64" fn memory_read_byte(areas: *const MemoryAreas, addr: u16) -> u8 {
+  #[cfg(gb_dynarec_verif)]
+  verif_trace::record(0, addr, 0);
   let memory_areas: &MemoryAreas = unsafe { &*areas };
   if addr < 0x4000 { // ROM Bank 0
     return memory_areas.rom[addr as usize];
@@ -266,6 +268,8 @@ pub extern "sysv64" fn memory_read_byte(areas: *const MemoryAreas, addr: u16) ->
 
 #[inline(never)]
 pub extern "sysv64" fn memory_write_byte(areas: *mut MemoryAreas, addr: u16, value: u8) {
+  #[cfg(gb_dynarec_verif)]
+  verif_trace::record(1, addr, value);
   let memory_areas: &mut MemoryAreas = unsafe { &mut *areas };
   if addr < 0x8000 { // ROM Banks
     memory_areas.cart_state.write_rom(addr, value);
@@ -362,5 +366,33 @@ impl DMAState {
   /// verification hook: (source, current_offset) of an active OAM DMA
   pub fn verif_state(&self) -> (usize, u8) {
     (self.source, self.current_offset)
+  }
+}
+
+/// Verification hook (add-only, compiled only with `--cfg gb_dynarec_verif`):
+/// an optional per-thread log of every bus access (kind 0 = read, 1 = write).
+#[cfg(gb_dynarec_verif)]
+pub mod verif_trace {
+  use std::cell::RefCell;
+
+  thread_local! {
+    static TRACE: RefCell<Option<Vec<(u8, u16, u8)>>> = RefCell::new(None);
+  }
+
+  pub fn start() {
+    TRACE.with(|t| *t.borrow_mut() = Some(Vec::new()));
+  }
+
+  pub fn take() -> Vec<(u8, u16, u8)> {
+    TRACE.with(|t| t.borrow_mut().take().unwrap_or_default())
+  }
+
+  #[inline]
+  pub fn record(kind: u8, addr: u16, value: u8) {
+    TRACE.with(|t| {
+      if let Some(log) = t.borrow_mut().as_mut() {
+        log.push((kind, addr, value));
+      }
+    });
   }
 }
